@@ -1,6 +1,7 @@
 """C03 - A successful commit is durable and reopens to the same state (structural clauses)."""
 from ..defuse import du_of, walk, peel, callee_name, fmt
 from ..callgraph import cg_of
+from .. import engine
 from ..cfg import cfg_of
 from ..conds import lits_of
 from ..roles import roles_of
@@ -322,6 +323,26 @@ def run(facts, res):
                     res.violation("K5", "commit|stages-after-pack:%s" % st_.name(),
                                   "commit can call %s (which stages objects) after the pack has been written: the block would reference revisions whose "
                                   "objects are in no pack, and a reopened replica holds the block back" % st_.name(), st_.loc())
+
+    # ------------------------------------------------------------------ K6 numbers read back as written
+    # The pack is the text printed by serde_json; a reopened replica (and the committing one after a cache eviction) parses
+    # it.  serde_json prints the shortest text that identifies the f64, but parses it back to exactly that f64 only when
+    # built with `float_roundtrip` (its default parser is off by one ULP for ~30% of doubles): defect F21.
+    res.rule("K6", "every number reads back from a pack as it was written: serde_json is built with float_roundtrip")
+    try:
+        fs = engine.dep_features("serde_json", engine.REPO)
+    except Exception as e:  # pragma: no cover
+        fs = None
+        res.violation("K6", "cargo-metadata-failed", "cannot determine serde_json features: %r" % (e,))
+    if fs is not None:
+        res.floor("K6", "serde_json in the dependency graph", len(fs), 1)
+        for f in fs:
+            ok = "float_roundtrip" in f and "arbitrary_precision" not in f
+            res.instance("K6", "serde_json resolved features %s: parse(print(x)) == x for every f64: %s" % (f, ok), None)
+            if not ok:
+                res.violation("K6", "serde_json|float-parse-not-exact",
+                              "serde_json is built without `float_roundtrip`: a floating point number stored in a pack parses back one ULP off for about "
+                              "a third of all doubles, so a reopened replica shows a different value than the committing replica did")
 
     # ------------------------------------------------------------------ K2f storage key
     c = facts.body("melda::Melda::commit")
